@@ -877,7 +877,7 @@ func concurrentFirstUse(rep *Report, cl *lean.Client, r *rng.R) int {
 		fl.N = r.Intn(1000) * 100
 		c := &l2Case{Q: "INSERT INTO t (*) VALUES ($" + e.Name + ".*)", Samples: []any{reflect.Zero(e.Type).Interface()},
 			Args: []any{fl.Fill(e.Type, 0).Interface()}}
-		const g = 8
+		const g = 16
 		res := make([]*l2Run, g)
 		start := make(chan struct{})
 		var wg sync.WaitGroup
